@@ -85,6 +85,22 @@ def mutations(s):
         out.append(("transition-length", m.start(1), s[: m.start(1)] + " ".join(lst + ["1"]) + s[m.end(1) :]))
         if len(lst) > 2:
             out.append(("transition-length", m.start(1), s[: m.start(1)] + " ".join(lst[:-1]) + s[m.end(1) :]))
+    # a transition list of the wrong length written on ANY descriptor of an object (repeat units, end groups, terminals)
+    for om in re.finditer(r"\{[^{}]*\}", s):
+        span = om.group(0)
+        ds = list(R.DESC_RE.finditer(span))
+        nd = len(ds) - 2 + (1 if span.startswith("{[]") else 0) + (1 if span.endswith("[]}") else 0)
+        if nd < 1:
+            continue
+        for m in ds:
+            core = m.group(0)
+            base = core[: core.index("|")] if "|" in core else core[:-1]
+            for ln in (nd + 1, max(2, nd - 1)):
+                if ln == nd:
+                    continue
+                lst = " ".join(["1"] * ln)
+                a0 = om.start() + m.start()
+                out.append(("transition-length", a0, s[:a0] + base + "|" + lst + "|]" + s[om.start() + m.end() :]))
     # negative weight on each descriptor
     for m in R.DESC_RE.finditer(s):
         core = m.group(0)
@@ -98,6 +114,9 @@ def system_mutations(s):
     out = []
     out.append(("text-after-mixture", len(s), s + ".|500|CC"))
     out.append(("text-after-mixture", len(s), s + ".|50%|N"))
+    out.append(("text-after-mixture", len(s), s + ".|500|CCO.|200|"))
+    out.append(("text-after-mixture", len(s), s + ".|500|{[][$]CC[$]; [$][H][]}|gauss(50, 5)|"))
+    out.append(("text-after-mixture", len(s), s + ".|1e3|C|"))
     for bad in ["-1%", "101%", "100.5%", "-5", "-0.1%"]:
         out.append(("percent-out-of-range", len(s), s + ".|" + bad + "|"))
     return out
